@@ -1,4 +1,5 @@
 """GameSpy 1 family (`gs1 <port> <retries> <script>` = one::query, `gs1vars …` = one::query_vars)."""
+from props import malformed
 
 FAMILY = dict(
     send_units=1, name="gs1", nargs=2, gen="gs1", retries=1, port=0, decode_property="C04", entry="gs1",
@@ -45,7 +46,7 @@ def c10_build(valid, unit, v, r, new_id):
         elif e == "F":
             faults.append(True)
         elif e == "M":
-            newds.append(b"\xff\xff")
+            newds.append(malformed.CURRENT)
             faults.append(False)
         else:
             newds += ds
